@@ -60,6 +60,15 @@ func (w *worker) closeAll() {
 	}
 }
 
+func (w *worker) anyStuck() bool {
+	for _, in := range w.instances {
+		if in.stuck {
+			return true
+		}
+	}
+	return false
+}
+
 // linkedSession is ServerConn.Session() of client connection idx, as a session index (-1: none).
 func (in *instance) linkedSession(idx int) int {
 	cl, ok := in.clients[idx]
@@ -98,6 +107,9 @@ func (w *worker) runCase(cfg Cfg, name string, next func(*view) (string, bool)) 
 			if v.Key == "hang" || v.Key == "no-response" || v.Key == "dead-after-case" {
 				w.broken = true
 			}
+		}
+		if w.anyStuck() {
+			w.broken = true
 		}
 	}()
 	in, err := w.instance(cfg)
@@ -248,10 +260,15 @@ func configs(c *corr.Ctx, rng *rand.Rand) []Cfg {
 		{Mask: 2 | 4 | 16, UDP: true, NMedias: 1},     // publish-only server: announce, setup, record
 		{Mask: 255 &^ 4, UDP: true, NMedias: 2},       // no OnSetup
 		{Mask: 255 &^ 32 &^ 64, UDP: true, NMedias: 3}, // no OnPause, no OnGetParameter
+		{Mask: 255, UDP: true, NMedias: 2, IdleMs: 30000},
+		{Mask: 255, UDP: true, NMedias: 2, IdleMs: 45500},
+		{Mask: 255, UDP: true, NMedias: 2, IdleMs: 12999}, // Session header: timeout=7
+		{Mask: 255, UDP: true, NMedias: 2, IdleMs: 8000},  // Session header: timeout=3; nothing in a case takes seconds
 	}
 	n := c.N(2, 12)
 	for i := 0; i < n; i++ {
-		cfgs = append(cfgs, Cfg{Mask: rng.IntN(256), UDP: rng.IntN(4) != 0, Mcast: rng.IntN(4) == 0, NMedias: 1 + rng.IntN(3)})
+		cfgs = append(cfgs, Cfg{Mask: rng.IntN(256), UDP: rng.IntN(4) != 0, Mcast: rng.IntN(4) == 0, NMedias: 1 + rng.IntN(3),
+			IdleMs: []int{0, 0, 20000, 61500, 3600000}[rng.IntN(5)]})
 	}
 	return cfgs
 }
@@ -429,7 +446,7 @@ func Run(c *corr.Ctx) {
 				g := &randGen{rng: w.rng, cfg: cfg, max: 3 + w.rng.IntN(12)}
 				r := w.runCase(cfg, fmt.Sprintf("rand-%d", i), g.next)
 				r.dist["random"]++
-				r.dist[fmt.Sprintf("cfg:mask=%d,udp=%v,mcast=%v", cfg.Mask, cfg.UDP, cfg.Mcast)]++
+				r.dist[fmt.Sprintf("cfg:mask=%d,udp=%v,mcast=%v,idle=%dms", cfg.Mask, cfg.UDP, cfg.Mcast, cfg.idleMs())]++
 				out(r)
 			}
 		})
